@@ -78,8 +78,9 @@ fn unitables() {
 }
 
 /// `capture <stage>`: run `<stage>` in a child process with piped stdout, and turn each
-/// ##CASE..##END group into one result line: the `##R k=v` fields in order, then
-/// `out=<hex of every other line the case printed>` (ructe's own println! output).
+/// ##CASE..##END group into one result line: the `##R k=v` fields in order, with
+/// `out=<hex of the other lines the case printed>` (ructe's own println! output) inserted
+/// at the position where they were printed.
 /// A child that dies in the middle of a case yields `died=1` for that case; the remaining
 /// input is handed to a fresh child.
 fn capture(stage: &str) {
@@ -116,10 +117,19 @@ fn capture(stage: &str) {
                 fields.clear();
                 other.clear();
             } else if l == b"##END" {
-                writeln!(out, "{} out={}", fields.join(" "), hex(&other)).unwrap();
+                if !other.is_empty() {
+                    fields.push(format!("out={}", hex(&other)));
+                    other.clear();
+                }
+                writeln!(out, "{}", fields.join(" ")).unwrap();
                 in_case = false;
                 next += 1;
             } else if l.starts_with(b"##R ") {
+                // what the case printed so far belongs before this field
+                if !other.is_empty() {
+                    fields.push(format!("out={}", hex(&other)));
+                    other.clear();
+                }
                 fields.push(String::from_utf8_lossy(&l[4..]).into_owned());
             } else if in_case {
                 other.extend_from_slice(&l);
@@ -129,11 +139,14 @@ fn capture(stage: &str) {
         let _ = child.wait();
         let _ = feeder.join();
         if in_case {
-            writeln!(out, "{} died=1 out={}", fields.join(" "), hex(&other)).unwrap();
+            if !other.is_empty() {
+                fields.push(format!("out={}", hex(&other)));
+            }
+            writeln!(out, "{} died=1", fields.join(" ")).unwrap();
             next += 1;
         } else if next < lines.len() {
             // child ended between cases without consuming everything: avoid a livelock
-            writeln!(out, "died=1 out=-").unwrap();
+            writeln!(out, "died=1").unwrap();
             next += 1;
         }
     }
@@ -152,6 +165,7 @@ fn main() {
         "io" => io_cases::run(),
         "statics" => statics_cases::run(),
         "build" => build_cases::run(),
+        "build-once" => build_cases::run_once(),
         _ => {
             eprintln!("usage: harness compile|unitables|io|statics|build");
             std::process::exit(2);
